@@ -9,6 +9,7 @@ def QuietB (c : Nat) : Event → Prop
   | .linkDown d => d ≠ c
   | .leader _ => False
   | .close d => d ≠ c
+  | .closeCut d _ => d ≠ c
   | _ => True
 
 /-- … and do not answer RequestId `rid` on it either -/
@@ -16,6 +17,7 @@ def QuietT (c rid : Nat) : Event → Prop
   | .linkDown d => d ≠ c
   | .leader _ => False
   | .close d => d ≠ c
+  | .closeCut d _ => d ≠ c
   | .leaderMsg d (.lockRes r) _ => d ≠ c ∨ r.rid ≠ rid
   | _ => True
 
@@ -39,7 +41,8 @@ theorem step_frame {s : Node} {c : Nat} {x : Conn} (hx : s.conns[c]? = some x) (
       | .role _ => True
       | .unattached _ => True
       | .leader _ => False
-      | .close d => d ≠ c) :
+      | .close d => d ≠ c
+      | .closeCut d _ => d ≠ c) :
     (step s e).1.conns[c]? = some x := by
   have hlt := idx_lt hx
   cases e with
@@ -67,6 +70,10 @@ theorem step_frame {s : Node} {c : Nat} {x : Conn} (hx : s.conns[c]? = some x) (
     repeat' split
     all_goals first | exact hx | (simp only; rw [List.getElem?_set_ne h]; exact hx)
   | close d =>
+    simp only [step, stepClose]
+    repeat' split
+    all_goals first | exact hx | (simp only; rw [List.getElem?_set_ne h]; exact hx)
+  | closeCut d k =>
     simp only [step, stepClose]
     repeat' split
     all_goals first | exact hx | (simp only; rw [List.getElem?_set_ne h]; exact hx)
@@ -107,6 +114,7 @@ theorem keepB_step {s : Node} {c : Nat} {x : Conn} (hx : s.conns[c]? = some x) (
   | leader a => exact absurd hq id
   | linkDown d => exact ⟨x, step_frame hx (.linkDown d) hq, hk⟩
   | close d => exact ⟨x, step_frame hx (.close d) hq, hk⟩
+  | closeCut d k => exact ⟨x, step_frame hx (.closeCut d k) hq, hk⟩
   | request d short q =>
     by_cases hd : d = c
     · subst hd
@@ -152,6 +160,7 @@ theorem keepT_step {s : Node} {c rid : Nat} {md : TextMode} {x : Conn} (hx : s.c
   | leader a => exact absurd hq id
   | linkDown d => exact ⟨x, step_frame hx (.linkDown d) hq, k1, k2, k3, k4, k5⟩
   | close d => exact ⟨x, step_frame hx (.close d) hq, k1, k2, k3, k4, k5⟩
+  | closeCut d k => exact ⟨x, step_frame hx (.closeCut d k) hq, k1, k2, k3, k4, k5⟩
   | request d short q =>
     by_cases hd : d = c
     · subst hd
